@@ -18,7 +18,10 @@ Definition mv_slots (mvs : list Defrag.move) : list Z := map src_of mvs ++ map t
 (* a pending move at the level of the Allocation table *)
 Definition mv_ok (v : vam) (lr : lref) (m : Defrag.move) : Prop :=
   exists a b, slot_is v (src_of m) a /\ slot_is v (tmp_of m) b /\ a_kind a = 1 /\ a_kind b = 1 /\
-              a_lref a = lr /\ a_lref b = lr /\ a_size a = a_size b /\ a_align a = a_align b.
+              a_lref a = lr /\ a_lref b = lr /\ a_size a = a_size b /\ a_align a = a_align b /\
+              (* the source is the caller's object at the recorded place, the temporary sits at the destination *)
+              a_blk a = Defrag.m_srcblk m /\ a_handle a = Defrag.m_srcoff m /\ a_temp a = false /\
+              a_blk b = Defrag.m_dstblk m /\ a_handle b = Defrag.m_dstoff m /\ a_temp b = true.
 
 Definition moves_ok (v : vam) (lr : lref) (mvs : list Defrag.move) : Prop :=
   NoDup (mv_slots mvs) /\ Forall (mv_ok v lr) mvs.
@@ -79,7 +82,7 @@ Lemma complete_move_inv v lr mv d :
   let '(v', r) := complete_move c v mv d in
   match r with OK _ => keptS c v v' [] [] [src_of mv; tmp_of mv] | ER _ => False | _ => True end.
 Proof.
-  intros HI (a & b & Sa & Sb & Ka & Kb & La & Lb & Esz & Eal) Hne. unfold complete_move.
+  intros HI (a & b & Sa & Sb & Ka & Kb & La & Lb & Esz & Eal & _) Hne. unfold complete_move.
   fold (src_of mv). fold (tmp_of mv).
   assert (Hfin : forall v1, keptS c v v1 [] [] [src_of mv; tmp_of mv] ->
             let '(v', r) := free_or_panic c v1 (tmp_of mv) in
@@ -99,7 +102,47 @@ Proof.
     + apply Hfin. split; [exact HI|]. split; [apply tab_frame_refl|apply lists_frame_refl].
 Qed.
 
-(* ---------------------------------------------------------------- all moves of a pass *)
+(* what completing a move does to its two Allocation objects (C07): after a copy the caller's object reports the
+   destination (block, handle, memory of the temporary) and keeps everything else; an ignored move leaves it
+   as it was; a destroyed one is gone; the temporary is gone in every case *)
+Definition move_effect (v v' : vam) (m : Defrag.move) (d : Z) : Prop :=
+  a_allocated (get_alloc v' (tmp_of m)) = false /\
+  (d = 0 -> get_alloc v' (src_of m) = swapped (get_alloc v (src_of m)) (get_alloc v (tmp_of m))) /\
+  (d <> 0 -> d <> 2 -> get_alloc v' (src_of m) = get_alloc v (src_of m)) /\
+  (d = 2 -> a_allocated (get_alloc v' (src_of m)) = false).
+
+Lemma complete_move_effect v lr mv d :
+  VamInv c v -> mv_ok v lr mv -> src_of mv <> tmp_of mv ->
+  let '(v', r) := complete_move c v mv d in
+  match r with OK _ => move_effect v v' mv d | _ => True end.
+Proof.
+  intros HI (a & b & Sa & Sb & Ka & Kb & La & Lb & Esz & Eal & _) Hne. unfold complete_move.
+  fold (src_of mv). fold (tmp_of mv).
+  assert (Hfin : forall v1, VamInv c v1 ->
+            let '(v', r) := free_or_panic c v1 (tmp_of mv) in
+            match r with OK _ => a_allocated (get_alloc v' (tmp_of mv)) = false /\ get_alloc v' (src_of mv) = get_alloc v1 (src_of mv) | _ => True end).
+  { intros v1 I1. pose proof (free_or_panic_inv v1 (tmp_of mv) I1) as P.
+    destruct (free_or_panic c v1 (tmp_of mv)) as (v' & r). destruct r as [[]|code| |]; auto.
+    destruct P as ((_ & T & _) & D). split; [exact D|]. apply (get_alloc_frame _ _ _ _ T). intros [E|[]]. congruence. }
+  destruct (d =? 0) eqn:E0.
+  - apply Z.eqb_eq in E0.
+    pose proof (swap_inv c v [] [] (src_of mv) (tmp_of mv) a b lr HI Hne Sa Sb (fun H => H) (fun H => H) Ka Kb La Lb Esz Eal) as P.
+    destruct (swap_block_allocation v (src_of mv) (tmp_of mv)) as (v1 & r1).
+    destruct P as (-> & I1 & _ & _ & _ & Gs & _). specialize (Hfin v1 I1).
+    destruct (free_or_panic c v1 (tmp_of mv)) as (v' & r). destruct r as [[]|code| |]; auto. destruct Hfin as (D & E).
+    split; [exact D|]. split; [intros _; rewrite E, Gs, (get_alloc_slot _ _ _ Sa), (get_alloc_slot _ _ _ Sb); reflexivity|]. split; intros; lia.
+  - apply Z.eqb_neq in E0. destruct (d =? 2) eqn:E2.
+    + apply Z.eqb_eq in E2. pose proof (free_or_panic_inv v (src_of mv) HI) as P.
+      destruct (free_or_panic c v (src_of mv)) as (v1 & r1). destruct r1 as [[]|code| |]; auto.
+      destruct P as ((I1 & _) & D1). specialize (Hfin v1 I1).
+      destruct (free_or_panic c v1 (tmp_of mv)) as (v' & r). destruct r as [[]|code| |]; auto. destruct Hfin as (D & E).
+      split; [exact D|]. split; [intros; lia|]. split; [intros; lia|]. intros _. rewrite E. exact D1.
+    + apply Z.eqb_neq in E2. specialize (Hfin v HI).
+      destruct (free_or_panic c v (tmp_of mv)) as (v' & r). destruct r as [[]|code| |]; auto. destruct Hfin as (D & E).
+      split; [exact D|]. split; [intros; lia|]. split; [intros; exact E|intros; lia].
+Qed.
+
+(* ---------------------------------------------------------------- all moves of a pass: the invariant *)
 
 Lemma complete_moves_inv mvs : forall v lr p imm ds,
   VamInv c v -> moves_ok v lr mvs ->
@@ -125,6 +168,75 @@ Proof.
     assert (Hin2 : forall s, In s (mv_slots rest) -> In s (mv_slots (mv :: rest))).
     { unfold mv_slots. cbn [map app]. intros s Hin. apply in_app_iff in Hin. right. apply in_app_iff. destruct Hin; [left|right; right]; auto. }
     eapply keptS_trans; [eapply keptS_weaken; [exact P|exact Hin1]|eapply keptS_weaken; [exact Q|exact Hin2]].
+Qed.
+
+(* after a completed copy the caller's Allocation object reports the destination of the move and keeps its
+   size, alignment, memory type, suballocation type, mapping flags and identity as a non-temporary *)
+Lemma copied_location v v' lr m :
+  mv_ok v lr m -> move_effect v v' m 0 ->
+  let a := get_alloc v (src_of m) in let a' := get_alloc v' (src_of m) in
+  a_allocated a' = true /\ a_kind a' = 1 /\ a_lref a' = lr /\
+  a_blk a' = Defrag.m_dstblk m /\ a_handle a' = Defrag.m_dstoff m /\
+  a_size a' = a_size a /\ a_align a' = a_align a /\ a_type a' = a_type a /\ a_sub a' = a_sub a /\
+  a_persist a' = a_persist a /\ a_mapallowed a' = a_mapallowed a /\ a_temp a' = false.
+Proof.
+  intros (a & b & Sa & Sb & Ka & Kb & La & Lb & Esz & Eal & Ba & Oa & Ta & Bb & Ob & Tb) (_ & E & _). cbn zeta.
+  rewrite (E eq_refl), (get_alloc_slot _ _ _ Sa), (get_alloc_slot _ _ _ Sb). unfold swapped. cbn.
+  destruct Sa as (_ & Aa). auto 15.
+Qed.
+
+(* ---------------------------------------------------------------- all moves of a pass: what happens to the objects *)
+
+Fixpoint moves_effect (v v' : vam) (mvs : list Defrag.move) (ds : list Z) : Prop :=
+  match mvs with
+  | [] => True
+  | m :: rest => move_effect v v' m (norm_decision (hd 0 ds)) /\ moves_effect v v' rest (tl ds)
+  end.
+
+Lemma move_effect_frame v v0 v' v1 m d :
+  get_alloc v0 (src_of m) = get_alloc v (src_of m) -> get_alloc v0 (tmp_of m) = get_alloc v (tmp_of m) ->
+  get_alloc v1 (src_of m) = get_alloc v' (src_of m) -> get_alloc v1 (tmp_of m) = get_alloc v' (tmp_of m) ->
+  move_effect v v' m d -> move_effect v0 v1 m d.
+Proof. intros A B C0 D (E1 & E2 & E3 & E4). unfold move_effect. rewrite A, B, C0, D. auto. Qed.
+
+Lemma moves_effect_frame mvs : forall v v0 v' v1 ds,
+  (forall s, In s (mv_slots mvs) -> get_alloc v0 s = get_alloc v s) ->
+  (forall s, In s (mv_slots mvs) -> get_alloc v1 s = get_alloc v' s) ->
+  moves_effect v v' mvs ds -> moves_effect v0 v1 mvs ds.
+Proof.
+  induction mvs as [|m rest IH]; intros v v0 v' v1 ds H0 H1 H; cbn [moves_effect] in *; [exact I|].
+  destruct H as (Hm & Hr).
+  assert (Hs : In (src_of m) (mv_slots (m :: rest))) by (unfold mv_slots; cbn; left; reflexivity).
+  assert (Ht : In (tmp_of m) (mv_slots (m :: rest))) by (unfold mv_slots; cbn; right; apply in_app_iff; right; left; reflexivity).
+  assert (Hin : forall s, In s (mv_slots rest) -> In s (mv_slots (m :: rest))).
+  { unfold mv_slots. cbn [map app]. intros s Hi. apply in_app_iff in Hi. right. apply in_app_iff. destruct Hi; [left|right; right]; auto. }
+  split; [apply (move_effect_frame v v0 v' v1); auto|]. apply (IH v v0 v' v1); auto.
+Qed.
+
+Lemma complete_moves_effect mvs : forall v lr p imm ds,
+  VamInv c v -> moves_ok v lr mvs ->
+  let '(v', p', imm', r) := complete_moves c v lr p imm mvs ds in
+  match r with OK _ => moves_effect v v' mvs ds | _ => True end.
+Proof.
+  induction mvs as [|mv rest IH]; intros v lr p imm ds HI (Hnd & Hf); cbn [complete_moves]; [exact I|].
+  destruct (list_alloc_stats v lr) as (pc & pb).
+  inversion Hf as [|? ? Hmv Hrest]; subst.
+  destruct (mv_slots_cons _ _ Hnd) as (Hne & Hs & Ht & Hnd').
+  pose proof (complete_move_inv v lr mv (norm_decision (hd 0 ds)) HI Hmv Hne) as P.
+  pose proof (complete_move_effect v lr mv (norm_decision (hd 0 ds)) HI Hmv Hne) as PE.
+  destruct (complete_move c v mv (norm_decision (hd 0 ds))) as (v1 & r). destruct r as [[]|code| |]; auto.
+  destruct (list_alloc_stats v1 lr) as (ac & ab).
+  assert (Hok1 : moves_ok v1 lr rest).
+  { apply (moves_ok_frame v v1 lr [src_of mv; tmp_of mv] rest); [apply P| |split; auto].
+    intros s [<-|[<-|[]]]; auto. }
+  match goal with |- context [complete_moves c v1 lr ?p1 ?imm1 rest (tl ds)] =>
+    pose proof (IH v1 lr p1 imm1 (tl ds) (proj1 P) Hok1) as Q;
+    pose proof (complete_moves_inv rest v1 lr p1 imm1 (tl ds) (proj1 P) Hok1) as QI;
+    destruct (complete_moves c v1 lr p1 imm1 rest (tl ds)) as (((v2 & p2) & imm2) & r2) end.
+  destruct r2 as [[]|code| |]; auto. cbn [moves_effect]. destruct P as (_ & T1 & _). destruct QI as (_ & T2 & _). split.
+  - apply (move_effect_frame v v v1 v2); auto; apply (get_alloc_frame _ _ _ _ T2); auto.
+  - apply (moves_effect_frame rest v1 v v2 v2); auto.
+    intros s Hin. symmetry. apply (get_alloc_frame _ _ _ _ T1). intros [<-|[<-|[]]]; contradiction.
 Qed.
 
 (* ---------------------------------------------------------------- swapImmovableBlocks *)
@@ -217,6 +329,32 @@ Proof.
         - rewrite nth_z_set_other in Hn1 by congruence. apply (Hr _ _ Hn1). exact Hne. }
       split; [exact I1|]. split; [apply T1|]. split; [exact L1|]. split; [apply run_idle_ok; auto|exact Hidle].
   - apply Hsame. intros i dc1 Hn1. apply (Hr _ _ Hn1). intros ->. congruence.
+Qed.
+
+(* EndDefragPass, what the caller sees (C07): per move the effect chosen by its MoveOperation; every other
+   Allocation object is untouched *)
+Lemma defrag_end_effect v run ds dc :
+  VamInv c v -> run_ok v run -> nth_z (dr_ctxs run) (dr_progress run) = Some dc ->
+  let '(v', run', r) := defrag_end c v run ds in
+  match r with
+  | OK _ => moves_effect v v' (Defrag.c_moves (dc_ctx dc)) ds /\
+            tab_frame v v' (mv_slots (Defrag.c_moves (dc_ctx dc)))
+  | _ => True
+  end.
+Proof.
+  intros HI (Hb & Ha & Hr) En. unfold defrag_end. rewrite En.
+  destruct (Defrag.c_moves (dc_ctx dc)) as [|m0 ms0] eqn:Em; [split; [exact I|apply tab_frame_refl]|].
+  destruct (Hr _ _ En) as (Hok & _). specialize (Hok eq_refl). rewrite Em in Hok.
+  unfold complete_pass. rewrite Em.
+  pose proof (complete_moves_inv (m0 :: ms0) v (dc_lr dc) (dr_pass run) [] ds HI Hok) as P.
+  pose proof (complete_moves_effect (m0 :: ms0) v (dc_lr dc) (dr_pass run) [] ds HI Hok) as PE.
+  destruct (complete_moves c v (dc_lr dc) (dr_pass run) [] (m0 :: ms0) ds) as (((v1 & p1) & imm) & r).
+  destruct r as [[]|code| |]; auto.
+  destruct (get_blist v1 (dc_lr dc)) as [l|] eqn:Hg; [|exact I].
+  destruct (fold_left _ imm (bl_blocks l, Defrag.c_immovable (dc_ctx dc))) as (bs & immc).
+  destruct P as (_ & T1 & _). split.
+  - apply (moves_effect_frame (m0 :: ms0) v v v1 _); auto. intros s _. unfold get_alloc. rewrite set_blist_tab. reflexivity.
+  - eapply tab_frame_trans_same; [exact T1|apply tab_frame_set_blist].
 Qed.
 
 End WithCfg.
